@@ -206,6 +206,112 @@ pub fn check_in(ctx: &Ctx, case: &FaultCase, counters: &std::cell::Cell<[u64; 5]
     rep.label_if(in_part, "offset-inside-part").label_if(in_dir, "offset-inside-directory").label_if(in_len8, "offset-inside-8-byte-length")
 }
 
+
+/// One fault injection into the create of an archive that is larger than the 4 MiB write buffer, so
+/// that part data reaches the file *before* the final flush and a failing write surfaces inside
+/// add_part / the worker threads instead of in close().
+#[derive(Clone, Debug, Hash, Serialize, Deserialize)]
+pub struct BigFault {
+    pub seed: u64,
+    pub contigs: u32,
+    pub contig_len: u32,
+    pub threads: u32,
+    pub limit: u64,
+}
+
+const BIG_BUFFER: u64 = 4 * 1024 * 1024;
+
+fn write_big_input(path: &std::path::Path, b: &BigFault) -> std::io::Result<()> {
+    use std::io::Write;
+    // random text over 15 IUPAC letters: 4 bits per base after tuple packing and incompressible,
+    // no ACGT-only k-mers (so splitter search is instant); ~0.5 byte of archive per base
+    const AL: &[u8; 15] = b"ACGTRYKMSWBDHVN";
+    let mut r = SplitMix::new(b.seed ^ 0xB16_A2C4);
+    let mut f = std::io::BufWriter::new(std::fs::File::create(path)?);
+    for c in 0..b.contigs {
+        writeln!(f, ">big#1#c{}", c)?;
+        let mut line = Vec::with_capacity(b.contig_len as usize + 1);
+        let mut bits = 0u64;
+        let mut have = 0;
+        for _ in 0..b.contig_len {
+            if have < 4 {
+                bits = r.next();
+                have = 64;
+            }
+            let mut x = (bits & 15) as usize;
+            bits >>= 4;
+            have -= 4;
+            if x == 15 {
+                x = 0;
+            }
+            line.push(AL[x]);
+        }
+        line.push(b'\n');
+        f.write_all(&line)?;
+    }
+    f.flush()
+}
+
+pub fn check_big(ctx: &Ctx, b: &BigFault) -> Report {
+    let dir = ctx.scratch("c15big");
+    let input = dir.file("big.fa");
+    if let Err(e) = write_big_input(&input, b) {
+        return Report::inconclusive(format!("harness: cannot write the big input: {}", e));
+    }
+    let out = dir.file("big.agc");
+    let params = gen::Params { k: 21, segment_size: 60000, min_match: 20, threads: b.threads, pack: 50, fallback_permille: 0, queue_capacity: 2 << 30, single_file: true };
+    let mut cmd = Command::new(&ctx.ragc);
+    cmd.args(pipeline::create_args(&params, &out, &[input.clone()]));
+    let o = match run_with_fsize_limit(cmd, b.limit, Duration::from_secs(900)) {
+        Ok(o) => o,
+        Err(e) => return Report::inconclusive(format!("cannot run ragc: {}", e)),
+    };
+    if o.timed_out {
+        return Report::inconclusive(format!("create of the > 4 MiB archive under a {}-byte limit timed out", b.limit));
+    }
+    let rep = Report::pass(true).label("big-archive(>4MiB write buffer)").label(if b.limit < BIG_BUFFER { "fault-before-first-buffer-flush" } else { "fault-after-first-buffer-flush" });
+    if o.signal.is_some() {
+        return Report { verdict: Verdict::Fail(format!("ragc create was killed by a signal when the first failing write is at offset {}: {}", b.limit, o.describe())), ..rep };
+    }
+    if o.code == Some(0) {
+        // success is only truthful if the whole archive fitted below the limit: it must parse completely
+        let bytes = std::fs::read(&out).unwrap_or_default();
+        return match agcref::read_archive(&bytes) {
+            Ok(f) if f.samples.len() == 1 => {
+                if (bytes.len() as u64) <= BIG_BUFFER {
+                    return Report::inconclusive(format!("harness: the 'big' archive has only {} bytes (not above the write buffer)", bytes.len()));
+                }
+                let mut r = rep.label("control(limit>=size)");
+                r.nontrivial = false;
+                r
+            }
+            Ok(_) => Report { verdict: Verdict::Fail(format!("ragc create exited 0 under a {}-byte limit and the archive lists no sample", b.limit)), ..rep },
+            Err(e) => Report {
+                verdict: Verdict::Fail(format!("ragc create (exit 0) reported success although the first failing write was at offset {} ({} bytes on disk, not a complete archive: {})", b.limit, bytes.len(), e)),
+                ..rep
+            },
+        };
+    }
+    rep
+}
+
+fn big_cases(ctx: &Ctx) -> Vec<BigFault> {
+    let n = ctx.tier.pick(16usize, 96);
+    let mut r = SplitMix::new(crate::util::mix(ctx.seed, 0xC15B16));
+    let seed = r.next();
+    let mut limits: Vec<u64> = vec![1, 4096, BIG_BUFFER - 1, BIG_BUFFER, BIG_BUFFER + 1, BIG_BUFFER + 4096, 1 << 40];
+    while limits.len() < n {
+        // the archive has about 4.6 MiB: below the buffer size, between buffer size and end, around the end
+        let x = match limits.len() % 3 {
+            0 => r.below(BIG_BUFFER),
+            1 => BIG_BUFFER + r.below(500_000),
+            _ => BIG_BUFFER + 400_000 + r.below(300_000),
+        };
+        limits.push(x);
+    }
+    limits.into_iter().map(|limit| BigFault { seed, contigs: 5, contig_len: 1_900_000, threads: 2, limit }).collect()
+}
+
 pub fn run(ctx: &Ctx, stats: &mut Stats) {
     use proptest::prelude::*;
     let c2 = ctx.clone();
@@ -221,6 +327,11 @@ pub fn run(ctx: &Ctx, stats: &mut Stats) {
             run_prop(ctx, stats, "all-offsets", 16, gen::collection_strategy(tiny).prop_map(|collection| FaultCase { collection, only: None, exhaustive: true }), &check);
         }
     }
+    {
+        let c3 = ctx.clone();
+        run_exhaustive(ctx, stats, "big-archive", big_cases(ctx).into_iter(), &move |b: &BigFault| check_big(&c3, b));
+        stats.stages.entry("big-archive".into()).or_default().exhaustive = false; // a sample of offsets, not all
+    }
     let c = counters.get();
     stats.add_extra_count("faulted_creates", c[0]);
     stats.add_extra_count("faults_inside_a_part", c[1]);
@@ -229,7 +340,13 @@ pub fn run(ctx: &Ctx, stats: &mut Stats) {
     stats.add_extra_count("control_runs", c[4]);
 }
 
-pub fn replay(ctx: &Ctx, _stage: &str, case: &Value) -> Report {
+pub fn replay(ctx: &Ctx, stage: &str, case: &Value) -> Report {
+    if stage == "big-archive" {
+        return match from_case::<BigFault>(case) {
+            Ok(b) => check_big(ctx, &b),
+            Err(e) => Report::fail(e),
+        };
+    }
     let counters = std::cell::Cell::new([0u64; 5]);
     match from_case::<FaultCase>(case) {
         Ok(c) => check_in(ctx, &c, &counters),
@@ -240,8 +357,8 @@ pub fn replay(ctx: &Ctx, _stage: &str, case: &Value) -> Report {
 pub const INFO: PropInfo = PropInfo {
     id: "C15",
     level: "fault_enumeration",
-    rule: "cases = generated collections (16 quick / 96 thorough) x injection offsets N: the create runs in a child with RLIMIT_FSIZE = N and SIGXFSZ ignored, so the first write that would pass N fails with EFBIG after a partial write (the shape of a full disk). Offsets (quick, ~30 per archive): 0, 1, every N in the last 12 bytes (the 8-byte length and the directory's tail), the footer start -1/0/+1 and the directory's middle, start and interior of 5 parts (from the independent parser's directory), 4 random N; thorough (16 x 96 archives): 0..2, the last 64 bytes, boundary -1/0/+1 and interior of up to 40 parts, footer start -1..+2, 40 random N, and additionally ALL N in 0..size-1 for 16 small archives. Two thirds of the runs use the real `ragc create` (exit status), one third the library path re-executed in a child (Result of finalize). Oracle: for N < final size the run reports failure (exit != 0 / Err) and is not killed by a signal; control runs with N = size and size+4096 exit 0 with a complete archive (shows the injection is not vacuous). Non-trivial case = offsets fell strictly inside a part, inside the directory and inside the 8-byte length; distinct = distinct collection. faulted_creates etc. give the number of fault injections.",
-    assumptions: &["the fault model is 'first failing write at byte N, all later writes fail too' (file-size limit); transient faults are not modelled", "archives are smaller than the 4 MiB write buffer, so the data reaches the file in the final flush; the > 4 MiB case is not covered (too slow to generate here)"],
+    rule: "cases = generated collections (16 quick / 96 thorough) x injection offsets N: the create runs in a child with RLIMIT_FSIZE = N and SIGXFSZ ignored, so the first write that would pass N fails with EFBIG after a partial write (the shape of a full disk). Offsets (quick, ~30 per archive): 0, 1, every N in the last 12 bytes (the 8-byte length and the directory's tail), the footer start -1/0/+1 and the directory's middle, start and interior of 5 parts (from the independent parser's directory), 4 random N; thorough (16 x 96 archives): 0..2, the last 64 bytes, boundary -1/0/+1 and interior of up to 40 parts, footer start -1..+2, 40 random N, and additionally ALL N in 0..size-1 for 16 small archives. Two thirds of the runs use the real `ragc create` (exit status), one third the library path re-executed in a child (Result of finalize). Oracle: for N < final size the run reports failure (exit != 0 / Err) and is not killed by a signal; control runs with N = size and size+4096 exit 0 with a complete archive (shows the injection is not vacuous). Non-trivial case = offsets fell strictly inside a part, inside the directory and inside the 8-byte length; distinct = distinct collection. faulted_creates etc. give the number of fault injections. Stage big-archive: one generated input (5 contigs x 1.9 Mbases of random IUPAC text, seed from VERIF_SEED) whose archive (~4.6 MiB) exceeds the 4 MiB write buffer, so part data is written before the final flush and a failing write surfaces in add_part / the worker threads rather than in close(); 16 (quick) / 96 (thorough) limits: 1, 4096, 4 MiB -1/0/+1/+4096, random below 4 MiB, between 4 MiB and the end, around the end, and a control (2^40); oracle: exit != 0 and no signal, or exit 0 with a file that the independent reader parses completely (only possible when the limit was never hit).",
+    assumptions: &["the fault model is 'first failing write at byte N, all later writes fail too' (file-size limit); transient faults are not modelled", "except in stage big-archive the archives are smaller than the 4 MiB write buffer, so the data reaches the file in the final flush"],
     needs_cli: true,
     needs_checked: false,
     max_shards: 16,
